@@ -79,6 +79,29 @@ func drainParts(st pb.Search_SearchPartitionsClient, err error) error {
 	}
 }
 
+// createAndUse: a creation request with an odd field; if the server accepts it the dataset is also used
+// (two inserts, a search), since a half-valid dataset only hurts when something touches it
+func createAndUse(e *env, ctx context.Context, dsm pb.DatasetManagerClient, dm pb.DataManagerClient, sr pb.SearchClient, space pb.Space) error {
+	d, err := dsm.Create(ctx, &pb.Dataset{Dimension: 3, Space: space, PartitionCount: 1, ReplicationFactor: 1})
+	if err != nil {
+		return err
+	}
+	for try := 0; try < 20; try++ {
+		c2, cancel := context.WithTimeout(context.Background(), 2*time.Second)
+		_, err = dm.Insert(c2, &pb.InsertRequest{DatasetId: d.GetId(), Id: id16(70), Value: vec(3, 1)})
+		cancel()
+		if err == nil || strings.Contains(err.Error(), "exists") {
+			break
+		}
+		time.Sleep(200 * time.Millisecond)
+	}
+	c2, cancel := context.WithTimeout(context.Background(), 2*time.Second)
+	defer cancel()
+	dm.Insert(c2, &pb.InsertRequest{DatasetId: d.GetId(), Id: id16(71), Value: vec(3, 2)})
+	drainSearch(sr.Search(c2, &pb.SearchRequest{DatasetId: d.GetId(), Query: vec(3, 1), K: 2}))
+	return nil
+}
+
 func classes() []class {
 	dm := func(e *env) pb.DataManagerClient { return pb.NewDataManagerClient(e.conn) }
 	dsm := func(e *env) pb.DatasetManagerClient { return pb.NewDatasetManagerClient(e.conn) }
@@ -126,6 +149,18 @@ func classes() []class {
 		{"create.badspace", false, func(e *env, ctx context.Context) error {
 			_, err := dsm(e).Create(ctx, &pb.Dataset{Dimension: 3, Space: pb.Space(77), PartitionCount: 1, ReplicationFactor: 1})
 			return err
+		}},
+		{"create.negspace", false, func(e *env, ctx context.Context) error {
+			return createAndUse(e, ctx, dsm(e), dm(e), sr(e), pb.Space(-1))
+		}},
+		{"create.minspace", false, func(e *env, ctx context.Context) error {
+			return createAndUse(e, ctx, dsm(e), dm(e), sr(e), pb.Space(-128))
+		}},
+		{"create.space3", false, func(e *env, ctx context.Context) error {
+			return createAndUse(e, ctx, dsm(e), dm(e), sr(e), pb.Space(3))
+		}},
+		{"create.hugespace", false, func(e *env, ctx context.Context) error {
+			return createAndUse(e, ctx, dsm(e), dm(e), sr(e), pb.Space(1<<30))
 		}},
 		{"get.unknown", false, func(e *env, ctx context.Context) error {
 			_, err := dsm(e).Get(ctx, &pb.GetDatasetRequest{DatasetId: id16(9)})
